@@ -1,4 +1,5 @@
 import PynnVerif.Proofs.SparseCorrelation
+import PynnVerif.Proofs.GenMerge
 
 /-!
 # C08 — sparse metrics agree with their dense counterparts
@@ -19,6 +20,13 @@ Property theorems only (helper lemmas: `Proofs/Sparse.lean`, `Proofs/SparseIndex
 * metrics that finish with `sqrt` are proved at the level of the `sqrt` argument
   (`sqEuclidean`, `minkowskiSum`, …) or with `sqrt` an arbitrary function satisfying `IsSqrt`
   (multiplicative and zero only at zero on non-negative arguments — `Real.sqrt` is one).
+
+* **tie between model and code** for the four two-pointer kernels `sparse_sum`, `sparse_mul`,
+  `sparse_dot_product`, `fast_intersection_size`: section "the translated kernels" below —
+  theorems about `Pynn.GenK.*` (`Gen/Kernels.lean`, regenerated from the source text of
+  `sparse.py` by `harness/translate_kernels.py` on every run): for **every** input the translated
+  kernel performs no out-of-bounds access, terminates within the stated fuel and returns exactly
+  what the hand-written model returns.  Helper lemmas: `Proofs/GenMerge.lean`.
 
 NOT proved here (no model, no theorem — left to the differential harness `harness/c08.py`):
 `sparse_kantorovich`, `sparse_wasserstein_1d`,
@@ -339,6 +347,158 @@ theorem correlation_empty_row_partial {sqrt : α → α} (x y : List α) (hx : e
 
 end Angular
 
+/-! ## the translated kernels (`Gen/Kernels.lean`) refine the model
+
+`GenK.<kernel> fuel <arrays>` is the syntax-directed translation of the numba source: `Option`
+monad, `none` = out-of-bounds load/store or fuel exhausted, integer cursors in `Int`.
+A CSR row is a pair of parallel arrays `(ind : Array Int, data : Array α)`; `toSVec ind data` is
+the model's row (`Int.toNat` on the indices, zipped with the data); `indArr a` / `valArr a` are the
+arrays of a model row (`toSVec (indArr a) (valArr a) = a`).  Hypotheses: the two arrays of a row
+have the same length and the indices are non-negative (`NonNeg`) — **no sortedness**: kernel and
+model take the same branches on unsorted rows too.  The carrier `α` is arbitrary (`Zero`,
+decidable equality, `+` / `*`): no arithmetic law is used, so the statements also cover a carrier
+with float-like non-associative arithmetic (the comparison `val != 0` being decidable equality). -/
+section KernelTie
+open Pynn.GenMerge
+variable {α : Type} [Zero α] [DecidableEq α]
+
+/-- **`sparse_sum` (translated source) = `sparseSum` (model), and it is memory safe**: with
+fuel `≥ n1 + n2 + 1` the kernel — `np.zeros(n1 + n2)` buffers, the `nnz` cursor, the main loop
+with its three guarded stores, the two tail loops and the final `[:nnz]` slices — never loads or
+stores out of bounds (invariant `nnz ≤ i1 + i2`) and returns the model's index and value lists. -/
+theorem kernel_sparse_sum_refines [Add α] (ind1 ind2 : Array Int) (data1 data2 : Array α)
+    (h1 : ind1.size = data1.size) (h2 : ind2.size = data2.size)
+    (hn1 : NonNeg ind1) (hn2 : NonNeg ind2) (fuel : Nat) (hf : ind1.size + ind2.size + 1 ≤ fuel) :
+    GenK.sparse_sum fuel ind1 data1 ind2 data2 =
+      some (indArr (sparseSum (toSVec ind1 data1) (toSVec ind2 data2)),
+            valArr (sparseSum (toSVec ind1 data1) (toSVec ind2 data2))) :=
+  sparse_sum_refines ind1 ind2 data1 data2 h1 h2 hn1 hn2 fuel hf
+
+/-- **`sparse_mul` (translated source) = `sparseMul` (model), memory safe**: the two typed lists
+the kernel appends to are the model's index and value lists. -/
+theorem kernel_sparse_mul_refines [Mul α] (ind1 ind2 : Array Int) (data1 data2 : Array α)
+    (h1 : ind1.size = data1.size) (h2 : ind2.size = data2.size)
+    (hn1 : NonNeg ind1) (hn2 : NonNeg ind2) (fuel : Nat) (hf : ind1.size + ind2.size + 1 ≤ fuel) :
+    GenK.sparse_mul fuel ind1 data1 ind2 data2 =
+      some (indArr (sparseMul (toSVec ind1 data1) (toSVec ind2 data2)),
+            valArr (sparseMul (toSVec ind1 data1) (toSVec ind2 data2))) :=
+  sparse_mul_refines ind1 ind2 data1 data2 h1 h2 hn1 hn2 fuel hf
+
+/-- **`sparse_dot_product` (translated source) = `dotLoop 0` (model) on non-empty operands,
+memory safe**, fuel `≥ n1 + n2`; hence (second part) it equals the model's `sparseDotProduct`. -/
+theorem kernel_sparse_dot_product_refines [Add α] [Mul α] (ind1 ind2 : Array Int)
+    (data1 data2 : Array α) (h1 : ind1.size = data1.size) (h2 : ind2.size = data2.size)
+    (hn1 : NonNeg ind1) (hn2 : NonNeg ind2) (c1 : 0 < ind1.size) (c2 : 0 < ind2.size)
+    (fuel : Nat) (hf : ind1.size + ind2.size ≤ fuel) :
+    GenK.sparse_dot_product fuel ind1 data1 ind2 data2
+        = some (dotLoop 0 (toSVec ind1 data1) (toSVec ind2 data2)) ∧
+    GenK.sparse_dot_product fuel ind1 data1 ind2 data2
+        = sparseDotProduct (toSVec ind1 data1) (toSVec ind2 data2) :=
+  ⟨sparse_dot_product_refines ind1 ind2 data1 data2 h1 h2 hn1 hn2 c1 c2 fuel hf,
+   sparse_dot_product_eq_model ind1 ind2 data1 data2 h1 h2 hn1 hn2 fuel hf⟩
+
+omit [DecidableEq α] in
+/-- **`sparse_dot_product` with an empty operand reads out of bounds** (`ind1[0]` / `ind2[0]`
+before any length test): the translated kernel is `none` for every fuel, whatever the other
+arrays hold — and so is the model (`dot_product_empty`). -/
+theorem kernel_sparse_dot_product_empty_oob [Add α] [Mul α] (ind1 ind2 : Array Int)
+    (data1 data2 : Array α) (fuel : Nat) (h : ind1.size = 0 ∨ ind2.size = 0) :
+    GenK.sparse_dot_product fuel ind1 data1 ind2 data2 = none :=
+  sparse_dot_product_empty_oob ind1 ind2 data1 data2 fuel h
+
+omit [Zero α] [DecidableEq α] in
+/-- **`fast_intersection_size` (translated source) = `intersectionSize` (model), memory safe**,
+fuel `≥ n1 + n2`, for all index arrays with non-negative entries, sorted or not. -/
+theorem kernel_fast_intersection_size_refines (ar1 ar2 : Array Int) (hn1 : NonNeg ar1)
+    (hn2 : NonNeg ar2) (fuel : Nat) (hf : ar1.size + ar2.size ≤ fuel) :
+    GenK.fast_intersection_size fuel ar1 ar2
+      = some ((intersectionSize (toNats ar1) (toNats ar2) : Nat) : Int) :=
+  fast_intersection_size_refines ar1 ar2 hn1 hn2 fuel hf
+
+omit [Zero α] [DecidableEq α] in
+/-- every model row is the abstraction of a pair of arrays the kernels accept (so the theorems
+above are not vacuous for any model row, and the composed statements below can be phrased on
+model rows) -/
+theorem kernel_rows_exist (a : SVec α) :
+    toSVec (indArr a) (valArr a) = a ∧ (indArr a).size = (valArr a).size ∧ NonNeg (indArr a) ∧
+    toNats (indArr a) = inds a :=
+  ⟨toSVec_indArr_valArr a, indArr_valArr_size a, nonNeg_indArr a, toNats_indArr a⟩
+
+end KernelTie
+
+/-! ### composed: the dense-agreement theorems, phrased on the translated source -/
+section KernelComposed
+open Pynn.GenMerge
+variable {α : Type} [DecidableEq α] [Ring α]
+
+/-- **The translated `sparse_sum` / `sparse_mul`, run on two rows with strictly increasing
+indices, return (in bounds, fuel `≥ n1 + n2 + 1`) arrays that decode to the pointwise sum /
+product** of the vectors the inputs stand for (`kernel_sparse_*_refines` + `merge_decode`). -/
+theorem kernel_merge_decode (a b : SVec α) (ha : Sorted a) (hb : Sorted b) (fuel : Nat)
+    (hf : a.length + b.length + 1 ≤ fuel) :
+    ∃ si sv mi mv,
+      GenK.sparse_sum fuel (indArr a) (valArr a) (indArr b) (valArr b) = some (si, sv) ∧
+      GenK.sparse_mul fuel (indArr a) (valArr a) (indArr b) (valArr b) = some (mi, mv) ∧
+      ∀ i, decode (toSVec si sv) i = decode a i + decode b i ∧
+           decode (toSVec mi mv) i = decode a i * decode b i := by
+  have hs := kernel_sparse_sum_refines (indArr a) (indArr b) (valArr a) (valArr b)
+    (indArr_valArr_size a) (indArr_valArr_size b) (nonNeg_indArr a) (nonNeg_indArr b) fuel
+    (by rw [indArr_size, indArr_size]; exact hf)
+  have hm := kernel_sparse_mul_refines (indArr a) (indArr b) (valArr a) (valArr b)
+    (indArr_valArr_size a) (indArr_valArr_size b) (nonNeg_indArr a) (nonNeg_indArr b) fuel
+    (by rw [indArr_size, indArr_size]; exact hf)
+  rw [toSVec_indArr_valArr, toSVec_indArr_valArr] at hs hm
+  refine ⟨_, _, _, _, hs, hm, fun i => ?_⟩
+  rw [toSVec_indArr_valArr, toSVec_indArr_valArr]
+  exact ⟨(merge_decode ha hb i).1, (merge_decode ha hb i).2.2⟩
+
+/-- **On the CSR encodings of two dense vectors of equal length the translated `sparse_sum` /
+`sparse_mul` return exactly the encoding of `x + y` / `x * y`** (`merge_enc`), the translated
+`sparse_dot_product` returns the dense dot product when neither encoding is empty
+(`dot_product_agrees`), and the translated `fast_intersection_size` returns the number of
+coordinates at which both vectors are non-zero (`intersection_size_agrees`). -/
+theorem kernel_enc_agrees (x y : List α) (h : x.length = y.length) (fuel : Nat)
+    (hf : x.length + y.length + 1 ≤ fuel) :
+    GenK.sparse_sum fuel (indArr (enc x)) (valArr (enc x)) (indArr (enc y)) (valArr (enc y))
+      = some (indArr (enc (List.zipWith (· + ·) x y)), valArr (enc (List.zipWith (· + ·) x y))) ∧
+    GenK.sparse_mul fuel (indArr (enc x)) (valArr (enc x)) (indArr (enc y)) (valArr (enc y))
+      = some (indArr (enc (List.zipWith (· * ·) x y)), valArr (enc (List.zipWith (· * ·) x y))) ∧
+    (enc x ≠ [] → enc y ≠ [] →
+      GenK.sparse_dot_product fuel (indArr (enc x)) (valArr (enc x)) (indArr (enc y)) (valArr (enc y))
+        = some (Dense.dot x y)) ∧
+    GenK.fast_intersection_size fuel (indArr (enc x)) (indArr (enc y))
+      = some (((x.zip y).countP (fun p => p.1 ≠ 0 ∧ p.2 ≠ 0) : Nat) : Int) := by
+  have lx : (enc x).length ≤ x.length := by
+    rw [enc, length_encFrom]; exact List.countP_le_length
+  have ly : (enc y).length ≤ y.length := by
+    rw [enc, length_encFrom]; exact List.countP_le_length
+  have hf' : (indArr (enc x)).size + (indArr (enc y)).size + 1 ≤ fuel := by
+    rw [indArr_size, indArr_size]; omega
+  have hs := kernel_sparse_sum_refines (indArr (enc x)) (indArr (enc y)) (valArr (enc x))
+    (valArr (enc y)) (indArr_valArr_size _) (indArr_valArr_size _) (nonNeg_indArr _)
+    (nonNeg_indArr _) fuel hf'
+  have hm := kernel_sparse_mul_refines (indArr (enc x)) (indArr (enc y)) (valArr (enc x))
+    (valArr (enc y)) (indArr_valArr_size _) (indArr_valArr_size _) (nonNeg_indArr _)
+    (nonNeg_indArr _) fuel hf'
+  have hi := kernel_fast_intersection_size_refines (indArr (enc x)) (indArr (enc y))
+    (nonNeg_indArr _) (nonNeg_indArr _) fuel (by omega)
+  rw [toSVec_indArr_valArr, toSVec_indArr_valArr] at hs hm
+  rw [(merge_enc x y h).1] at hs
+  rw [(merge_enc x y h).2.2] at hm
+  rw [toNats_indArr, toNats_indArr, intersection_size_agrees x y h] at hi
+  refine ⟨hs, hm, fun hx hy => ?_, hi⟩
+  have c1 : 0 < (indArr (enc x)).size := by
+    rw [indArr_size]; exact List.length_pos_iff.2 hx
+  have c2 : 0 < (indArr (enc y)).size := by
+    rw [indArr_size]; exact List.length_pos_iff.2 hy
+  have hd := (kernel_sparse_dot_product_refines (indArr (enc x)) (indArr (enc y)) (valArr (enc x))
+    (valArr (enc y)) (indArr_valArr_size _) (indArr_valArr_size _) (nonNeg_indArr _)
+    (nonNeg_indArr _) c1 c2 fuel (by omega)).2
+  rw [toSVec_indArr_valArr, toSVec_indArr_valArr, dot_product_agrees x y h hx hy] at hd
+  exact hd
+
+end KernelComposed
+
 /-! ## non-vacuity: concrete runs of the model (`decide +kernel`: the merges are well-founded
 recursions, which the elaborator's `decide` does not unfold; kernel evaluation adds no axioms) -/
 
@@ -368,5 +528,27 @@ example : correlationParts (enc ([1, 2, 3] : List Rat)) (enc [2, 5, 1]) 3 = (-1,
 constant row — sparse `1`, dense `0`. -/
 example : correlation id (enc ([0, 0] : List Rat)) (enc [3, 3]) 2 = 1 ∧
     Dense.correlation id ([0, 0] : List Rat) [3, 3] = 0 := by decide +kernel
+
+/-! non-vacuity of the kernel tie: the TRANSLATED kernels executed on small `Int` rows
+(same rows as above, as parallel arrays) -/
+
+/-- overlapping supports, a cancellation (index 2), a stored zero (index 9): all three loops and
+the final slices run; result = the model's -/
+example : GenK.sparse_sum 8 #[0, 2, 5, 9] #[(1 : Int), -2, 3, 0] #[1, 2, 7] #[4, 2, 9]
+    = some (#[0, 1, 5, 7], #[1, 4, 3, 9]) := by decide +kernel
+/-- one unit of fuel short of what this input needs: `none` (the fuel bound is not idle) -/
+example : GenK.sparse_sum 3 #[0, 2, 5, 9] #[(1 : Int), -2, 3, 0] #[1, 2, 7] #[4, 2, 9] = none := by
+  decide +kernel
+example : GenK.sparse_mul 7 #[0, 2, 5] #[(1 : Int), -2, 3] #[1, 2, 5] #[4, 2, 0]
+    = some (#[2], #[-4]) := by decide +kernel
+example : GenK.sparse_dot_product 6 #[0, 2, 5] #[(1 : Int), -2, 3] #[1, 2, 5] #[4, 2, 2] = some 2 := by
+  decide +kernel
+example : GenK.sparse_dot_product 6 #[] (#[] : Array Int) #[1] #[4] = none := by decide +kernel
+example : GenK.fast_intersection_size 6 #[1, 3, 5] #[2, 3, 5] = some 2 := by decide +kernel
+/-- unsorted rows: kernel and model still agree (here both miss the common index 1) -/
+example : GenK.fast_intersection_size 6 #[3, 1] #[1, 3] = some 1 ∧ intersectionSize [3, 1] [1, 3] = 1 := by
+  decide +kernel
+example : GenMerge.toSVec #[0, 2, 5] #[(1 : Int), -2, 3] = [(0, 1), (2, -2), (5, 3)] ∧
+    GenMerge.NonNeg #[0, 2, 5] ∧ ¬ GenMerge.NonNeg #[0, -2] := by decide
 
 end Pynn.C08
